@@ -1028,8 +1028,7 @@ func runAudits(prop string) []*auditRun {
 func runCorpus(prop string) map[string]any {
 	dirs, _ := filepath.Glob(filepath.Join(verifRoot(), "seeded", "*"))
 	sort.Strings(dirs)
-	total, caught := 0, 0
-	var missed []string
+	var mine []string
 	for _, d := range dirs {
 		data, err := os.ReadFile(filepath.Join(d, "meta.json"))
 		if err != nil {
@@ -1041,20 +1040,51 @@ func runCorpus(prop string) map[string]any {
 		if json.Unmarshal(data, &meta) != nil || meta.Property != prop {
 			continue
 		}
-		total++
-		cmd := exec.Command(filepath.Join(verifRoot(), "seedcheck.sh"), d, prop)
-		out, _ := cmd.Output()
-		lines := strings.Split(strings.TrimSpace(string(out)), "\n")
-		var r struct {
-			Checks []struct {
-				Exit int `json:"exit"`
-			} `json:"checks"`
-		}
-		if len(lines) > 0 && json.Unmarshal([]byte(lines[len(lines)-1]), &r) == nil && len(r.Checks) > 0 && r.Checks[0].Exit == 1 {
+		mine = append(mine, d)
+	}
+	// each seeded change is applied to a scratch worktree of /repo's HEAD and the quick check of the property is
+	// run against it (the build / test-suite / demonstration confirmation is seedcheck.sh's job); 4 at a time
+	self, _ := os.Executable()
+	results := make([]bool, len(mine))
+	var wg sync.WaitGroup
+	sem := make(chan struct{}, 4)
+	for i, d := range mine {
+		wg.Add(1)
+		go func(i int, d string) {
+			defer wg.Done()
+			sem <- struct{}{}
+			defer func() { <-sem }()
+			wt, err := os.MkdirTemp("", "goavc-corpus-")
+			if err != nil {
+				return
+			}
+			defer func() {
+				exec.Command("git", "-C", repoRoot(), "worktree", "remove", "--force", wt).Run()
+				os.RemoveAll(wt)
+			}()
+			if exec.Command("git", "-C", repoRoot(), "worktree", "add", "--detach", wt, "HEAD").Run() != nil {
+				return
+			}
+			ap := exec.Command("git", "apply", filepath.Join(d, "patch.diff"))
+			ap.Dir = wt
+			if ap.Run() != nil {
+				return
+			}
+			c := exec.Command(self, "check", "--property", prop, "--tier", "quick")
+			c.Env = append(os.Environ(), "GOAVC_REPO="+wt)
+			c.Run()
+			results[i] = c.ProcessState != nil && c.ProcessState.ExitCode() == 1
+		}(i, d)
+	}
+	wg.Wait()
+	caught := 0
+	var missed []string
+	for i, d := range mine {
+		if results[i] {
 			caught++
 		} else {
 			missed = append(missed, filepath.Base(d))
 		}
 	}
-	return map[string]any{"seeded_changes": total, "detected": caught, "missed": missed}
+	return map[string]any{"seeded_changes": len(mine), "detected": caught, "missed": missed, "how": "patch applied to a scratch worktree of HEAD, quick check of the property run against it"}
 }
